@@ -342,7 +342,7 @@ func checkPrepubRemovals(c *eng.Ctx, rule string) {
 					}
 				}
 				if call, _, truth, isCall := cond.BoolCall(); isCall && !truth {
-					if cal := eng.Callee(&call.Call); cal != nil && cal.Name() == "isActiveSetValid" {
+					if cal := eng.Callee(&call.Call); cal != nil && cal == anchor(c.P, setecPkg, "(*Store).isActiveSetValid") {
 						okReset = true
 					}
 				}
